@@ -52,13 +52,13 @@ type shadow struct {
 }
 
 type raceState struct {
-	on      bool
-	vc      map[*Thread]vclock
-	objs    map[any]vclock // mutexes, waitgroups, channels (by key), atomic words
-	chq     map[unsafe.Pointer][]vclock
-	mem     map[unsafe.Pointer]*shadow
-	cancel  vclock // join of every canceller / closer of uninstrumented channels
-	races   map[string]string
+	on     bool
+	vc     map[*Thread]vclock
+	objs   map[any]vclock // mutexes, waitgroups, channels (by key), atomic words
+	chq    map[unsafe.Pointer][]vclock
+	mem    map[unsafe.Pointer]*shadow
+	cancel vclock // join of every canceller / closer of uninstrumented channels
+	races  map[string]string
 }
 
 func (e *Exec) raceInit() {
